@@ -11,7 +11,8 @@ def programs(rng, n):
         return {'a': 'g%d-x%d' % (i, i * 7), 'b': {'c': '-w%dzz' % i}, 'nums': [i, i + 1, i * 2], 'list': [{'s': 'k%d-v%d' % (i, j), 'v': (i + j) % 5} for j in range(3)], 'n': i % 4 + 1}
     fixed = C05.CTX_PROGS + ['$sort(nums)', 'list^(>v).s', 'list{s: v}', '$map(nums, function($x){$x * n})', '( $f := function($k){$k <= 0 ? 0 : $k + $f($k - 1)}; $f(n) )',
                              '$replace(a, /[0-9]+/, function($m){$m.match & "!"})', '$match(a, /g(\\d+)/).groups', '$string(nums) & a', 'nums ~> $sum() ~> $string()', '$pad(?, n * 3)(a)',
-                             '$ ~> |list|{"v": v + 1}|', '$formatNumber(n * 1000.5, "#,##0.00")', '$fromMillis(n * 86400000)', 'list.s.$uppercase()', '$join(list.s, a)']
+                             '$ ~> |list|{"v": v + 1}|', '$formatNumber(n * 1000.5, "#,##0.00")', '$fromMillis(n * 86400000)', 'list.s.$uppercase()', '$join(list.s, a)', 'a.((n > 2 ? $uppercase : $lowercase)())', 'list.s.((n > 2 ? $substringAfter : $substringBefore)("-"))', 'a.(($exists(b) ? $length : $string)())',
+                             '( $fs := [$uppercase, $lowercase]; a.($fs[0]()) & a.($fs[1]()) )', '{"f": $substringBefore}.f(a, "-")', 'a.(($substringBefore)("-"))']
     for e in fixed:
         if any(t in e for t in ('$now', '$millis', '$keys', '$each', '$spread', '$sift', '*')):
             continue
